@@ -40,6 +40,9 @@ TraceNext ==
             /\\ ev.eff = c.S.out                                                      \\* side effects of exactly this invocation
             /\\ ev.a = c.S.th[<<>>].a /\\ ev.b = c.S.th[<<>>].b
             /\\ p' = p /\\ S' = [c.S EXCEPT !.out = <<>>, !.tick = @ + 1]
+       [] ev.e = "Sweep" ->                  \\* a straight-line thread of n yields (what Exec gives for it, in closed form)
+            /\\ ev.yields = ev.n /\\ ev.r = "X" /\\ ev.effects = ev.n + 1 /\\ ev.ok = 1
+            /\\ UNCHANGED <<p, S>>
        [] ev.e = "Seq" ->                                                            \\* same C body, sequential stand-in macros
             LET s == SeqRun(Progs[ev.p], <<>>, 1, State0(Progs[ev.p]), "Y", FALSE, 100000) IN
             /\\ ev.r = s.r /\\ ev.eff = s.S.out /\\ ev.tick = s.S.tick /\\ ev.a = s.S.th[<<>>].a /\\ ev.b = s.S.th[<<>>].b
@@ -53,13 +56,33 @@ TraceAccepted ==
 """
 
 
+BLOCKING = ["PT_WAIT()", "PT_WAIT_UNTIL(VPARG1)", "PT_YIELD()", "PT_EXIT()", "PT_EXIT_ON(VPARG1)", "PT_FAIL()", "PT_FAIL_ON(VPARG1)",
+            "PT_SPAWN(VPARG1, VPARG2)", "PT_SPAWN_AND_CHECK(VPARG1, VPARG2)", "PT_CALL(VPARG1, VPARG2)", "PT_CHILD_OK()", "PT_END()"]
+
+
+def macro_locals():
+    """identifiers the blocking macros declare inside their own expansion (the preprocessor's output is scanned): user
+    variables of exactly these names are what the macros' arguments may mention"""
+    import re
+    src = "#include <librfn/protothreads.h>\n" + "".join("VPMARK %s ;\n" % m for m in BLOCKING)
+    rc, out = sh(["gcc", "-E", "-P", "-I" + os.path.join(REPO, "include"), "-x", "c", "-"], timeout=60, inp=src.encode())
+    if rc != 0:
+        return []
+    text = out[out.find("VPMARK"):]
+    decl = re.compile(r"(?:^|[{;(])\s*(?:(?:const|volatile|unsigned|signed|static|register|long|short)\s+)*"
+                      r"(?:bool|_Bool|int|char|long|short|float|double|unsigned|\w+_t|__typeof__\s*\([^;{}]*?\)|typeof\s*\([^;{}]*?\)|struct\s+\w+|enum\s+\w+)"
+                      r"[\s*]+([A-Za-z_]\w*)\s*(?==|;|\[)")
+    names = sorted(set(decl.findall(text)) - {"VPARG1", "VPARG2", "VPMARK"})
+    return [n for n in names if re.fullmatch(r"[A-Za-z_]\w*", n)][:40]
+
+
 def run(run):
     tag = run.tier[0]
     nrandom = 2500 if run.thorough() else 250
     gd = run.path("gen")
     os.makedirs(gd, exist_ok=True)
     rc, out = sh(["python3", os.path.join(ROOT, "tools", "ptgen.py"), tag, str(run.seed), str(nrandom),
-                  os.path.join(gd, "ProtoProgs_%s.tla" % tag), os.path.join(gd, "proto_gen.c")])
+                  os.path.join(gd, "ProtoProgs_%s.tla" % tag), os.path.join(gd, "proto_gen.c")] + macro_locals())
     if rc != 0:
         raise Infra("ptgen failed: " + out[-2000:])
     nprogs = int(out.strip().splitlines()[-1])
@@ -78,9 +101,21 @@ def run(run):
     seq = build_driver(run, "proto_seq", "proto_main.c", [], extra_flags=[gen, "-DPT_SEQ"])
     t1 = exec_script(run, real, [], "", run.path("real.ndjson"), "real-macros", timeout=300)
     t2 = exec_script(run, seq, [], "", run.path("seq.ndjson"), "sequential-standins", timeout=300)
+    # every line number as a resume point (and functions far larger than 32 KiB of code); user variables named like anything
+    # the macros declare in their own expansion (plus a list of everyday names)
+    sweepf = '-DVP_SWEEP="%s"' % os.path.join(gd, "proto_gen_sweep.c")
+    sw = build_driver(run, "proto_sweep", "proto_main.c", [], extra_flags=[gen, sweepf], cc=["gcc", "-std=gnu11", "-O0", "-g", "-DLIBRFN_VERIF"])
+    capf = '-DVP_GEN="%s"' % os.path.join(gd, "proto_gen_capture.c")
+    try:
+        cap = build_driver(run, "proto_capture", "proto_main.c", [], extra_flags=[capf, "-DVP_CAPTURE"])
+    except Infra as e:
+        raise Violation("valid protothread programs (a file-scope variable used in the conditions) do not compile: %s" % str(e)[-600:],
+                        replay=save_replay(run, "capture-build", {"property": run.pid, "what": "capture variants build", "compiler": str(e)[-4000:]}))
+    t4 = exec_script(run, sw, [], "", run.path("sweep.ndjson"), "line-sweep", timeout=600)
+    t5 = exec_script(run, cap, [], "", run.path("capture.ndjson"), "user-identifiers", timeout=300)
     allp = run.path("proto.ndjson")
     with open(allp, "wb") as o:
-        for t in (t1, t2):
+        for t in (t1, t2, t4, t5):
             with open(t, "rb") as f:
                 shutil.copyfileobj(f, o)
     check_trace(run, "invocations", "TraceProto_" + tag, "TraceProto_%s.cfg" % tag, allp, spec_dir=gd, timeout=1700)
